@@ -489,7 +489,7 @@ class GetItem(Contract):
             ncols = 1
             colmap = lambda j: csel.idx
         else:
-            ncols = csel.n
+            ncols = getattr(csel, 'n_orig', csel.n)      # as listed in the key (a one-entry list may be stretched against the row indices)
             colmap = csel.fn
         nz = I.np.dim_z(ncols)
         # which source column each requested entry denotes, from the property text
@@ -669,6 +669,12 @@ class PickleRoundTrip(Contract):
             return
         P('reconstructor-and-args-are-the-array-ones',
           isinstance(rv.items[0], Opaque) and rv.items[0].tag == 'ndarray_reconstruct')
+        # this contract describes pickling / copying as __reduce__ + __setstate__: that is only what happens while the class
+        # defines no other hook of the pickle / copy protocols
+        cls_ = I.module_env('FlowCal.io')['FCSData']
+        other = [h for h in ('__reduce_ex__', '__getstate__', '__getnewargs__', '__getnewargs_ex__', '__copy__', '__deepcopy__')
+                 if h in getattr(cls_, 'members', {})]
+        P('pickling-and-copying-go-through-__reduce__-and-__setstate__-only(no other hook defined: %s)' % (', '.join(other) or 'none'), not other)
         # what pickle does on load: reconstruct an empty instance, then __setstate__(state)
         s = sym_array(I, 'restored', [0], 'float', 'FCSData')
         s.attrs = {}
